@@ -29,12 +29,15 @@ RUNS = {
         {"name": "K8-mapper-concurrent", "mode": "kmapc", "budget": (30, 600), "nontrivial": r".", "keyfn": "generic"},
         {"name": "K8-mapper-never-forgets", "mode": "kmapbig", "budget": (3, 40), "nontrivial": r".", "keyfn": "generic"},
         {"name": "K8-qid-type-of-every-host-file-kind", "mode": "kltype", "budget": (2, 20), "nontrivial": r"kind=", "keyfn": "generic"},
+        {"name": "K8-qids-through-the-composed-fs", "mode": "kcompose", "budget": (4, 60), "nontrivial": r"same=1|first=1", "keyfn": "generic"},
+        {"name": "K8-concurrent-first-lookups", "mode": "kltqc", "budget": (600, 20000), "nontrivial": r"distinct=1", "keyfn": "generic"},
     ],
     "C17": [
         {"name": "K3-segmentation", "mode": "k3", "budget": (120, 3000), "nontrivial": r"recv\d+=(msg|proto)", "keyfn": "generic"},
     ],
     "C04": [
         {"name": "K4-session", "mode": "k4", "budget": (12000, 150000), "nontrivial": r"^rtyp=(?!7 )", "keyfn": "k4"},
+        {"name": "K7-scenarios", "mode": "k7scen", "budget": (6, 100), "nontrivial": r".", "keyfn": "k7scen"},
     ],
     "C05": [
         {"name": "K4-session-lifecycle", "mode": "k4", "budget": (12000, 150000), "nontrivial": r"close=|^rtyp=(?!7 )", "keyfn": "k4", "monitor": "lifecycle"},
@@ -70,9 +73,12 @@ RUNS = {
         {"name": "K4-readdir-replies-within-msize", "mode": "k13", "budget": (60, 1500), "nontrivial": r"^rtyp=(117|41) ", "keyfn": "k4"},
         {"name": "K8-mapper-never-forgets", "mode": "kmapbig", "budget": (3, 40), "nontrivial": r".", "keyfn": "generic"},
         {"name": "K8-qid-type-of-every-host-file-kind", "mode": "kltype", "budget": (2, 20), "nontrivial": r"kind=", "keyfn": "generic"},
+        {"name": "K8-qids-through-the-composed-fs", "mode": "kcompose", "budget": (4, 60), "nontrivial": r"same=1|first=1", "keyfn": "generic"},
     ],
     "C03": [
         {"name": "K6-client-server", "mode": "kcs", "budget": (6000, 60000), "nontrivial": r" c0=", "keyfn": "kcs"},
+        {"name": "K4-same-handle-after-a-failed-call", "mode": "k4", "budget": (12000, 150000), "nontrivial": r"^rtyp=(?!7 )", "keyfn": "k4"},
+        {"name": "K6-long-xattr-values", "mode": "kxattr", "budget": (40, 600), "nontrivial": r"whole=1", "keyfn": "generic"},
         {"name": "K5-current-name-after-renames", "mode": "k5", "budget": (12000, 120000), "nontrivial": r"ok=1|^rtyp=(?!7 )", "keyfn": "k5"},
         {"name": "K6-fid-in-flight", "mode": "kmuxfid", "budget": (60, 2000), "nontrivial": r"formed=1", "keyfn": "generic"},
         {"name": "K7-messages-intact-while-in-use", "mode": "kalias", "budget": (70, 1400), "nontrivial": r"answered=1", "keyfn": "generic"},
@@ -727,6 +733,14 @@ for _p in ("C06", "C18"):
         "built from that is shared between connections shows within a few thousand replies).")
 PROPS["C03"]["rule"] = PROPS["C03"].get("rule", "") + (" k5 (memfs backend, session model and identity oracle per request): Rename / Remove reach the backend as RenameAt / UnlinkAt on "
     "the parent under the entry's *current* name after any history of renames; kmuxfid: a handle's fid is not handed to another File while its Tclunk is in flight.")
+PROPS["C04"]["rule"] = PROPS["C04"].get("rule", "") + (" k7scen (requests of one connection in flight together): two Tclunk of one fid, the first held inside the "
+    "xattr commit - exactly one Rclunk, the other EBADF (lookup and unbind are one step).")
+for _p in ("C19", "C20"):
+    PROPS[_p]["rule"] = PROPS[_p].get("rule", "") + (" kcompose: composefs with a writable localfs mount - the QID of a Create reply, of GetAttr through the created File and "
+        "of a Walk to its name are one; a mount whose directory is replaced between two listings is listed each time with what Walk + GetAttr report then.")
+PROPS["C20"]["rule"] = PROPS["C20"].get("rule", "") + " kltqc: eight goroutines make the first lookup of one (device, inode) pair outside the compact encoding at the same moment: one answer."
+PROPS["C03"]["rule"] = PROPS["C03"].get("rule", "") + (" k4: the same fid again after a request that failed inside the backend (a retried Open reaches the File again); kxattr: attribute "
+    "values longer than a frame and longer than 64 KiB come back whole.")
 PROPS["C10"]["level_text"] += (" Recycled response objects (Conc/RespPool.lean, after defect D20): over all clients of the process and every "
     "interleaving of calls starting, failing to send, being answered, connections failing and calls returning, a pooled response is referenced "
     "by no pending map and its channel is empty, no response serves two calls, and handleOne never blocks on a done channel while holding the "
